@@ -9,9 +9,10 @@ State = what is on disk, abstractly:
 * `metas`     : the `.bucket-B.object-K.metadata.json` side files, keyed by the RAW (bucket, key) strings;
 * `upMetas`   : the `.bucket-B.object-K.upload-U.metadata.json` side files;
 * `infos`     : the `.bucket-B.object-K.internal.json` side files (checksums);
-* `uploads`   : the `.upload-U.json` files: id ↦ access key of the creator. `UpInfo.bucket/key` are GHOST
-                fields (what `create_multipart_upload` was called with): the code does not store them and
-                `step` never reads them to compute an answer or the other fields; the abstraction does;
+* `uploads`   : the `.upload-U.json` files: id ↦ access key of the creator and the bucket and key
+                `create_multipart_upload` was called with (6bf591c: the record holds them and every operation on the
+                upload compares them with the request; a record of the older form, the access key only, is still
+                read — no operation writes one, so no state of the model holds one);
 * `parts`     : the `.upload_id-U.part-N` files;
 * `issued`    : how many upload ids were issued (ids are random UUIDs; the harness renames them 1,2,…).
 
@@ -31,9 +32,7 @@ abbrev Tree := List (Path × Node)
 
 structure UpInfo where
   owner : Who
-  /-- ghost -/
   bucket : Bytes
-  /-- ghost -/
   key : Bytes
   deriving DecidableEq, Repr
 
@@ -330,10 +329,17 @@ def State.loadMeta (s : State) (b k : Bytes) : Option Meta :=
     | some (.good m) => some m
     | some .corrupt => none
 
-/-- `verify_upload_id` (4609ab3): `NoSuchUpload` when the upload record does not exist, `AccessDenied` when it names other
-    credentials; `none` = the upload exists and belongs to the requester -/
-def State.verify (s : State) (who : Who) (id : Nat) : Option Err :=
+/-- `check_upload_exists` (4609ab3, 6bf591c): the record of the upload, if it exists and names this bucket and this key
+    (compared as the strings of the requests); `none` → `NoSuchUpload` -/
+def State.findUpload (s : State) (id : Nat) (b k : Bytes) : Option UpInfo :=
   match alLookup id s.uploads with
+  | none => none
+  | some u => if u.bucket = b ∧ u.key = k then some u else none
+
+/-- `verify_upload_id` (4609ab3, 6bf591c): `NoSuchUpload` when the upload record does not exist or names another bucket or
+    key, then `AccessDenied` when it names other credentials; `none` = the upload exists here and belongs to the requester -/
+def State.verify (s : State) (who : Who) (id : Nat) (b k : Bytes) : Option Err :=
+  match s.findUpload id b k with
   | none => some .NoSuchUpload
   | some u => if u.owner = who then none else some .AccessDenied
 
@@ -580,23 +586,23 @@ def step (H : Hashes) (dirLen : Nat) (s : State) : Op → State × Resp
       -- nobody learns that id and no operation enumerates uploads, so the orphan is left out of the state
       if sideTooLong b k true then (s, .err .InternalError)
       else ({ s1 with upMetas := alInsert (b, k, id) m s1.upMetas }, .created id)
-  | .uploadPart who _b _k u n c =>
+  | .uploadPart who b k u n c =>
     -- 205d9a8: `!(1..=10_000).contains(&part_number)`
     if n < 1 ∨ n > 10000 then (s, .err .InvalidArgument)
     else match u with
       | none => (s, .err .NoSuchUpload)                           -- not a UUID: no such upload
       | some id =>
-        match s.verify who id with
+        match s.verify who id b k with
         | some e => (s, .err e)
         | none => ({ s with parts := alInsert (id, n) c s.parts }, .part (some (etagOf H c)))
-  | .uploadPartCopy who _b _k u n sb sk range =>
+  | .uploadPartCopy who b k u n sb sk range =>
     -- 205d9a8: the part number is checked first, as in `upload_part`
     if n < 1 ∨ n > 10000 then (s, .err .InvalidArgument)
     else
     match u with
     | none => (s, .err .NoSuchUpload)
     | some id =>
-      match s.verify who id with
+      match s.verify who id b k with
       | some e => (s, .err e)
       | none => match objPath sb sk with
         | .error e => (s, .err e)
@@ -616,12 +622,13 @@ def step (H : Hashes) (dirLen : Nat) (s : State) : Op → State × Resp
               else
                 let body := (c.drop start).take cl
                 ({ s with parts := alInsert (id, n) body s.parts }, .part (some (etagOf H body)))
-  | .listParts _who _b _k u =>
-    -- 4609ab3: the upload must exist (`check_upload_exists`; whose it is does not matter here)
+  | .listParts _who b k u =>
+    -- 4609ab3, 6bf591c: the upload must exist under this bucket and key (`check_upload_exists`; whose it is does not
+    -- matter here)
     match u with
     | none => (s, .err .NoSuchUpload)
     | some id =>
-      if !alHas id s.uploads then (s, .err .NoSuchUpload)
+      if (s.findUpload id b k).isNone then (s, .err .NoSuchUpload)
       else
         -- the part files of the upload, in whatever order the directory is read; then (764f144)
         -- `parts.sort_by_key(|part| part.part_number)`: ascending part numbers
@@ -634,7 +641,7 @@ def step (H : Hashes) (dirLen : Nat) (s : State) : Op → State × Resp
       match u with
       | none => (s, .err .NoSuchUpload)
       | some id =>
-        match s.verify who id with
+        match s.verify who id b k with
         | some e => (s, .err e)
         | none =>
           -- nothing is changed before the part list and the part files are validated and the content is in place
@@ -669,7 +676,7 @@ def step (H : Hashes) (dirLen : Nat) (s : State) : Op → State × Resp
     match u with
     | none => (s, .err .NoSuchUpload)
     | some id =>
-      match s.verify who id with
+      match s.verify who id b k with
       | some e => (s, .err e)
       | none =>
         ({ s with upMetas := alErase (b, k, id) s.upMetas,
